@@ -97,7 +97,7 @@ func runC11(c *Ctx) {
 
 	c.rule("C11.V1", "registry keys never collide: the id under which a subscriber is registered (and later cancelled) is assigned only from a monotonically increasing counter (atomic.AddUint64(&m.<counter>, 1)) that nothing else writes, so a new registration cannot replace a live subscriber and a cancellation cannot hit another one", func() {
 		idF := c.field("blockntfns", "newSubscription", "id")
-		add := c.funcObj("sync/atomic", "AddUint64")
+		add := atomicOp("Add")
 		var bad, sites []string
 		var counter *types.Var
 		n := 0
@@ -106,7 +106,7 @@ func runC11(c *Ctx) {
 				n++
 				sites = append(sites, c.nm(f)+"@"+c.at(st))
 				call, ok := st.(*ssa.Store).Val.(*ssa.Call)
-				if !ok || !callTo(add)(call) {
+				if !ok || !add(call) {
 					bad = append(bad, "id assigned at "+c.at(st)+" from something other than an atomic counter increment")
 					continue
 				}
@@ -127,7 +127,7 @@ func runC11(c *Ctx) {
 						return
 					}
 					for _, r := range ir.Refs(fa) {
-						if call, ok := r.(*ssa.Call); ok && callTo(add)(call) {
+						if call, ok := r.(*ssa.Call); ok && add(call) {
 							continue
 						}
 						bad = append(bad, "counter "+counter.Name()+" accessed at "+c.at(r)+" other than by the increment")
@@ -417,7 +417,6 @@ func (c *Ctx) registryOwner() {
 	c.mustPrecede(stop, closes(loadsField(sm("quit"))), "close(m.quit)", mwait, "m.wg.Wait()", 1)
 	// Start is once-only
 	st := c.fn("(*blockntfns.SubscriptionManager).Start")
-	add := c.funcObj("sync/atomic", "AddInt32")
-	g := equalIs("atomic.AddInt32(&m.started,1) vs 1", find(st, binops(eqOps, valIsCallTo(add), constIntIs(1))), true)
+	g := equalIs("atomic.AddInt32(&m.started,1) vs 1", find(st, binops(eqOps, valIsAtomicOp("Add"), constIntIs(1))), true)
 	c.guarded(st, g, 1, "go subscriptionHandler", find(st, func(in ssa.Instruction) bool { _, ok := in.(*ssa.Go); return ok }), 1, gDominate)
 }
